@@ -87,19 +87,14 @@ Definition neg (t : ity) (x : Z) : Z := wrap t (- x).
 Definition not_ (t : ity) (x : Z) : Z := wrap t (Z.lnot x).
 Definition conv (from to : ity) (x : Z) : Z := wrap to x.
 
-(* Comparisons: plain Z comparisons (values are kept in range). *)
-Definition eqb (a b : Z) : bool := Z.eqb a b.
-Definition neqb (a b : Z) : bool := negb (Z.eqb a b).
-Definition ltb (a b : Z) : bool := Z.ltb a b.
-Definition leb (a b : Z) : bool := Z.leb a b.
-Definition gtb (a b : Z) : bool := Z.ltb b a.
-Definition geb (a b : Z) : bool := Z.leb b a.
+(* Comparisons are emitted by the translator directly as Z.eqb / Z.ltb / Z.leb
+   (a > b as Z.ltb b a, a != b as negb (Z.eqb a b)); bool ==/!= as Bool.eqb.
+   len(x) is emitted as Z.of_nat (length x), x[i] as nth (Z.to_nat i) x 0,
+   min/max as nested Z.min / Z.max. *)
 
 (* Indexing x[i] on a list model of a string / slice / array. *)
 Definition index_ok {A : Type} (l : list A) (i : Z) : bool :=
   (0 <=? i) && (i <? Z.of_nat (length l)).
-Definition index (l : list Z) (i : Z) : Z := nth (Z.to_nat i) l 0.
-Definition len {A : Type} (l : list A) : Z := Z.of_nat (length l).
 
 (* ------------------------------------------------------------------ *)
 (** * Intrinsics *)
@@ -123,10 +118,6 @@ Definition trailing_zeros_ := trailing_zeros U64.
 
 (* math/bits.LeadingZeros*. *)
 Definition leading_zeros (t : ity) (x : Z) : Z := bits t - bitlen x.
-
-(* Go 1.21 builtins min / max on integers: the translator nests these. *)
-Definition min (a b : Z) : Z := Z.min a b.
-Definition max (a b : Z) : Z := Z.max a b.
 
 (* ------------------------------------------------------------------ *)
 (** * Helpers used by generated code *)
@@ -655,10 +646,10 @@ Proof.
   - pose proof (Z.log2_le_mono x y Hxy). lia.
 Qed.
 
-Lemma min_range : forall t a b, in_range t a -> in_range t b -> in_range t (min a b).
-Proof. unfold in_range, min. intros. lia. Qed.
-Lemma max_range : forall t a b, in_range t a -> in_range t b -> in_range t (max a b).
-Proof. unfold in_range, max. intros. lia. Qed.
+Lemma min_range : forall t a b, in_range t a -> in_range t b -> in_range t (Z.min a b).
+Proof. unfold in_range. intros. lia. Qed.
+Lemma max_range : forall t a b, in_range t a -> in_range t b -> in_range t (Z.max a b).
+Proof. unfold in_range. intros. lia. Qed.
 
 Lemma index_ok_spec : forall (A : Type) (l : list A) i,
   index_ok l i = true <-> 0 <= i < Z.of_nat (length l).
